@@ -13,7 +13,7 @@ from ..oracles.ctab import Mol, V2Style, V3Style
 from . import common
 
 DIMENSIONS = ["coordinates", "bond_types", "bond_keywords", "charges", "resonance", "header", "index_values", "atom_keywords", "trailing_blocks", "after_end",
-              "line_endings", "v2000_format", "v2000_unrelated_lines", "v2000_charge_encoding", "aamap_counts", "via_file", "all"]
+              "line_endings", "v2000_format", "v2000_unrelated_lines", "v2000_charge_encoding", "v2000_after_end", "aamap_counts", "via_file", "all"]
 
 SPEC = {
     "level": "exploration",
@@ -113,7 +113,7 @@ def vary(mol: Mol, dim: str, rng):
         st3.blanks = 4
     elif dim == "via_file":
         pass
-    elif dim in ("v2000_format", "v2000_unrelated_lines", "v2000_charge_encoding"):
+    elif dim in ("v2000_format", "v2000_unrelated_lines", "v2000_charge_encoding", "v2000_after_end"):
         fmt = "v2000"
         for a in m.atoms:  # make it representable without touching identity data
             a.x, a.y, a.z = round(a.x, 4), round(a.y, 4), round(a.z, 4)
@@ -122,6 +122,12 @@ def vary(mol: Mol, dim: str, rng):
             st2.unrelated = 0.7
             st2.atom_lists = rng.choice([0, 2])
             st2.stereo_fields = True
+        if dim == "v2000_after_end":
+            # text after "M  END": SD-file data items, a record separator, or a whole second record with its own property lines
+            second = Mol([ctab.Atom("C", 0, 2, 13, 1.0, 0.0, 0.0), ctab.Atom("O", -1, 0, 18, 2.0, 0.0, 0.0)], [(0, 1, 1)], "second record")
+            st2.after_end = rng.choice(["$$$$", "> <ID>\n17\n\n$$$$", "$$$$\n" + ctab.render_v2000(second, V2Style(encoding="lines"), rng) + "\n$$$$",
+                                        "M  ISO  1   1  13", "M  RAD  1   1   2\nM  END"])
+            st2.final_eol = rng.random() < 0.5
         if dim == "v2000_charge_encoding":
             charges()
             st2.encoding = rng.choice(["codes", "lines", "stale", "agree"])
@@ -137,6 +143,10 @@ def vary(mol: Mol, dim: str, rng):
 
 
 def run_case(ctx, case):
+    return common.case_guard(ctx, case, _run_case)
+
+
+def _run_case(ctx, case):
     mol = Mol.from_json(case["mol"])
     rng = random.Random(case["vseed"])
     ref_text = ctab.render_v3000(mol, V3Style(), random.Random(0))
